@@ -73,6 +73,11 @@ Handle(e) ==
   CASE pt = "trace.reset" ->
          /\ role' = s /\ phase' = (IF s \in {"inproc", "child"} THEN "xfer" ELSE "idle") /\ won' = 0 /\ fb' = {} /\ total' = {} /\ written' = {} /\ marked' = {} /\ fin' = {}
          /\ sEnded' = {} /\ sDone' = {} /\ flush' = {} /\ fresh' = (a = 0) /\ UNCHANGED viol
+    [] pt = "host.emit.start" ->
+         \* the host starts serving a receiver: the per-transfer state begins afresh (the host processes of the
+         \* sessions driven here serve one receiver at a time)
+         /\ phase' = "idle" /\ won' = 0 /\ sEnded' = {} /\ sDone' = {}
+         /\ UNCHANGED <<role, fb, total, written, marked, fin, flush, fresh, viol>>
     [] pt = "ice.dial.won" ->
          /\ won' = won + 1 /\ viol' = viol \cup Flag(won = 0, "C09.two_winners")
          /\ UNCHANGED <<role, phase, fb, total, written, marked, fin, sEnded, sDone, flush, fresh>>
